@@ -8,6 +8,8 @@
 #include <stddef.h>
 #include <stdint.h>
 #include <carquet/carquet.h>
+#include <stdlib.h>
+#include "core/arena.h"
 
 #define CQV_MC_SLOTS 4
 const void *cqv_mc_dst[CQV_MC_SLOTS];
@@ -65,4 +67,29 @@ void carquet_error_set(carquet_error_t *error, carquet_status_t code, const char
   error->function = function;
   __CPROVER_havoc_slice(error->message, sizeof(error->message));
   error->message[sizeof(error->message) - 1] = 0;
+}
+
+/* Arena (src/core/arena.c uses address arithmetic on uintptr_t; it belongs to another family).
+ * Assumed contract, enough for one carquet_arena_calloc per arena as carquet_batch_reader_next does:
+ * init allocates (may fail), calloc returns zeroed memory or NULL, destroy releases everything. */
+carquet_status_t carquet_arena_init(carquet_arena_t *arena) {
+  __CPROVER_precondition(__CPROVER_w_ok(arena, sizeof(*arena)), "arena writable");
+  arena->head = NULL; arena->current = NULL;
+  arena->default_block_size = 0; arena->total_allocated = 0; arena->total_capacity = 0;
+  void *t = malloc(16);
+  if (!t) return CARQUET_ERROR_OUT_OF_MEMORY;
+  arena->head = (carquet_arena_block_t *)t;
+  return CARQUET_OK;
+}
+void *carquet_arena_calloc(carquet_arena_t *arena, size_t count, size_t size) {
+  __CPROVER_precondition(__CPROVER_rw_ok(arena, sizeof(*arena)) && arena->head != NULL, "arena initialised");
+  __CPROVER_precondition(arena->current == NULL, "stub models one allocation per arena");
+  void *p = calloc(count, size);
+  arena->current = (carquet_arena_block_t *)p;
+  return p;
+}
+void carquet_arena_destroy(carquet_arena_t *arena) {
+  __CPROVER_precondition(__CPROVER_rw_ok(arena, sizeof(*arena)), "arena valid");
+  free(arena->head); free(arena->current);
+  arena->head = NULL; arena->current = NULL;
 }
